@@ -1,7 +1,32 @@
 import Labella.Model.Process
+import Labella.Model.CalSpec
+import Labella.Proofs.CalendarLemmas
+import Labella.Proofs.ProcessLemmas
+/-! # C10 — a timeline's export depends only on its own data and options
+
+Model: what timelines can share inside one process — scale objects and engine-option dicts as cells; the repaired
+constructor allocates fresh cells, the pre-repair one used the two module-level defaults. -/
 namespace Labella.C10
 open Labella Labella.Process
 
-theorem placeholder_hour : hourFloor 3600001 = 3600000 := by decide
+/-! ### C10 -/
+
+/-- **Isolation.**  In the repaired model (every timeline gets its own scale and its own engine-option dict) every
+export of timeline `i`, after ANY interleaving of constructions and exports of any number of timelines, shows
+exactly the arguments of the latest construction of `i` — whatever was constructed or exported before or in between. -/
+theorem instances_isolated (ops : List POp) : outputs false PState.init ops = expected [] ops := by
+  exact outputs_eq_expected ops _ _ inv_init
+
+/-- exporting is deterministic and repeatable: an export changes nothing -/
+theorem export_changes_nothing (shared : Bool) (s : PState) (i : Nat) : (pstep shared s (.export i)).1 = s := by
+  rw [pstep_export]
+
+/-- the pre-repair sharing of the module-level default scale violates isolation: construct A, construct B,
+export A shows B's domain -/
+theorem legacy_shared_counterexample :
+    outputs true PState.init [.construct 0 ⟨"a0", "a1", "up"⟩, .construct 1 ⟨"b0", "b1", "left"⟩, .export 0]
+      ≠ expected [] [.construct 0 ⟨"a0", "a1", "up"⟩, .construct 1 ⟨"b0", "b1", "left"⟩, .export 0] := by
+  decide
+
 
 end Labella.C10
